@@ -249,6 +249,12 @@ def generate(ctx):
         cases.append(("random", ("motor", PINS, random_seq(rng))))
     for _ in range(3000 if thorough else 300):
         cases.append(("random-decimal", ("motor", PINS, random_seq(rng, decimal=True))))
+    # long histories: the statement says "every sequence", the streams above stop at 15 calls
+    for _ in range(60 if thorough else 8):
+        ops = []
+        for _ in range(rng.randint(4, 10)):
+            ops += random_seq(rng)
+        cases.append(("random-long", ("motor", PINS, ops)))
     return cases
 
 
